@@ -346,6 +346,33 @@ func upcOp(a []string) string {
 			return "err"
 		}
 		return "ok " + hexs(b)
+	case "plmn2":
+		// SetPlmnDigit twice on one object: the second PLMN is the object's PLMN (nothing of the first one is left in the octets)
+		if len(a) != 6 {
+			return "bad-op"
+		}
+		var v [4]int
+		for i := range v {
+			x, e := strconv.Atoi(a[2+i])
+			if e != nil {
+				return "bad-op"
+			}
+			v[i] = x
+		}
+		if a[1] == "l" {
+			var s upc.UEPolicySectionManagementSubList
+			_ = s.SetPlmnDigit(v[0], v[1])
+			if err := s.SetPlmnDigit(v[2], v[3]); err != nil {
+				return "err"
+			}
+			return fmt.Sprintf("ok %02x%02x%02x", s.PlmnDigit1, s.PlmnDigit2, s.PlmnDigit3)
+		}
+		var s upc.UEPolicySectionManagementSubResult
+		_ = s.SetPlmnDigit(v[0], v[1])
+		if err := s.SetPlmnDigit(v[2], v[3]); err != nil {
+			return "err"
+		}
+		return fmt.Sprintf("ok %02x%02x%02x", s.PlmnDigit1, s.PlmnDigit2, s.PlmnDigit3)
 	case "plmn":
 		if len(a) != 4 {
 			return "bad-op"
@@ -598,6 +625,20 @@ func oracleC18(op string, a []string) string {
 		}
 		if got := showMsg(back); got != want {
 			return fmt.Sprintf("FAIL round trip: decoded %s, built %s", got, want)
+		}
+		return "pass"
+	case "plmn2":
+		if len(a) != 6 {
+			return skip
+		}
+		mcc, e1 := strconv.Atoi(a[4])
+		mnc, e2 := strconv.Atoi(a[5])
+		if e1 != nil || e2 != nil || mcc < 100 || mcc > 999 || mnc < 9 || mnc > 999 {
+			return skip
+		}
+		want := nasConvert.PlmnIDToNas(models.PlmnId{Mcc: fmt.Sprintf("%03d", mcc), Mnc: fmt.Sprintf("%02d", mnc)})
+		if r := upcOp(a); r != "ok "+hexs(want) {
+			return fmt.Sprintf("FAIL SetPlmnDigit(%s,%s) then SetPlmnDigit(%d,%d) on one object => %s, PlmnIDToNas gives %x", a[2], a[3], mcc, mnc, r, want)
 		}
 		return "pass"
 	case "plmn":
@@ -871,6 +912,12 @@ func genUePolicy(g *Gen, w *bufio.Writer) {
 		for _, mnc := range mncs {
 			fmt.Fprintf(w, "upc plmn l %d %d\n", mcc, mnc)
 			fmt.Fprintf(w, "upc plmn r %d %d\n", mcc, mnc)
+			if mnc%3 == 0 {
+				// the object held another PLMN before (two- and three-digit MNCs in both orders)
+				m2, n2 := 100+g.Intn(900), []int{10 + g.Intn(90), 100 + g.Intn(900)}[g.Intn(2)]
+				fmt.Fprintf(w, "upc plmn2 l %d %d %d %d\n", m2, n2, mcc, mnc)
+				fmt.Fprintf(w, "upc plmn2 r %d %d %d %d\n", mcc, mnc, m2, n2)
+			}
 		}
 	}
 	for _, v := range [][2]int{{0, 10}, {98, 10}, {99, 10}, {1000, 10}, {208, 0}, {208, 8}, {208, 9}, {208, 1000}, {208, 2550}} {
